@@ -349,6 +349,14 @@ def gen_cases(rng, tier):
             tvotes.append(s)
             if rng.chance(1, 6):
                 tvotes.append(copy.deepcopy(s))
+            if rng.chance(1, 4):
+                # the same signer votes again in this view with DIFFERENT content (another high vote /
+                # high certificate): a repeated signer must be refused whatever it signs
+                others = [x for x in tms if x != s["msg"]]
+                t3 = copy.deepcopy(rng.choice(others)) if others and rng.chance(1, 2) else copy.deepcopy(s["msg"])
+                if t3 == s["msg"]:
+                    t3["hv"] = M.commit(M.view(G, E, 0), M.header(rng.range(0, 3), rng.range(5, 9))) if t3["hv"] is None else None
+                tvotes.append({"key": s["key"], "msg": t3, "sig": M.sig_timeout(s["key"], t3)})
         cases.append(dict(base, op="tqc_assemble", view=v, votes=tvotes, kind="tqc_assemble", _c=c))
     return cases
 
